@@ -95,6 +95,14 @@ func runC19(c *Ctx) {
 			}
 			return cut
 		}(), 1)
+		// no block header leaves the store without an event: in the root package
+		// the only removal of block headers is that one RollbackLastBlock call,
+		// inside the per-block loop (a bulk RollbackBlockHeaders would drop
+		// blocks silently); the importer's compensating rollback touches headers
+		// that were never announced
+		c.whoMay("removal of block headers from the store (RollbackLastBlock / RollbackBlockHeaders)", callTo(bhs("RollbackLastBlock"), bhs("RollbackBlockHeaders")), []string{fnRollBack, "(*chainimport.headersImport).writeHeadersToTargetStores", "(*headerfs.blockHeaderStore).RollbackLastBlock"}, 2)
+		okOne := len(rb) == 1 && ir.LoopHeaderOf(rb[0].Block()) != nil && len(find(fn, callTo(bhs("RollbackBlockHeaders")))) == 0
+		c.verdict(okOne, c.nm(fn)+" | block headers are removed one per loop iteration", c.P.Pos(fn.Pos()), "a single RollbackLastBlock inside the loop", fmt.Sprintf("rollBackToHeight removes block headers at %d RollbackLastBlock site(s) and %d bulk RollbackBlockHeaders site(s): headers removed outside the per-block loop get no Disconnected event", len(rb), len(find(fn, callTo(bhs("RollbackBlockHeaders"))))))
 		stampHash := c.field("headerfs", "BlockStamp", "Hash")
 		prevBlock := c.field(pWire, "BlockHeader", "PrevBlock")
 		fetches := find(fn, callTo(bhs("FetchHeader")))
